@@ -165,7 +165,24 @@ PROPS["C20"] = {
     "rule": "Non-trivial: >=2 identities, or a duplicated feature, or a multi-valued field with >=2 values (c20.hash); every client configuration (c20.client). Distinct = description of the info set / (extension set, ver).",
     "assumptions": ["values contain no '<'", "form fields have at least one value and unique keys", "a single extension form (the library supports one)"],
     "subs": [
-        {"name": "c20.hash", "engine": "rapid", "quick": R(6, 20000), "thorough": R(16, 1000000)},
-        {"name": "c20.client", "engine": "rapid", "quick": R(3, 3000), "thorough": R(8, 100000)},
+        {"name": "c20.hash", "engine": "rapid", "quick": R(6, 100000), "thorough": R(16, 1000000)},
+        {"name": "c20.client", "engine": "rapid", "quick": R(3, 10000), "thorough": R(8, 100000)},
+    ],
+}
+
+PROPS["C06"] = {
+    "binary": "c06_sasl",
+    "level": "exploration",
+    "technique": "property-based testing (rapidcheck): differential against an independent RFC 5802/7677, RFC 2831, RFC 4616 and XEP-0484 implementation built on OpenSSL; stateful server-message histories through the real SASL managers with a 'server proved knowledge' history oracle",
+    "level_text": ("Every generated (mechanism, SASLprep-stable user name and password, salt, iteration count, nonce, realm, token) is answered by the real SASL client and by an independent implementation; the messages must be byte-identical where the RFC fixes them and semantically equal (independent tokenizer) for DIGEST-MD5 directives. "
+                   "Server histories (honest; 10 kinds of invalid server-first; wrong/truncated/extended/missing ServerSignature in a challenge or inside <success/>; success sent before server-first; error in server-final) are played through SaslManager and Sasl2Manager: "
+                   "success may be reported only after the harness has shown the correct ServerSignature, and an invalid server-first must never be answered with a proof."),
+    "level_note": "Trusted: the independent implementations in harness/c06_sasl.cpp and OpenSSL (EVP digests incl. SHA3-512, HMAC, PKCS5_PBKDF2_HMAC). User names and passwords are restricted to strings that SASLprep leaves unchanged (the library does not normalise and the property speaks of the normalised form). Not judged: a server nonce equal to the client nonce with nothing appended, a signature carried inside <success/> that is correct (accepting or failing are both conforming).",
+    "rule": ("c06.responses: (mechanism in SCRAM-SHA-1/-256/-512/SHA3-512, DIGEST-MD5, PLAIN, HT-SHA-256-NONE/HT-SHA3-512-NONE) x user/password over printable ASCII incl. , = \" \\ space and NFKC-stable Latin-1/Greek/Cyrillic/CJK letters x salt 1..64 B x iterations 1..4096 x nonce suffix x realm/nonce with quotes and backslashes; "
+             "non-trivial = name or password has a non-alphanumeric character, or salt/iterations at a bound, or a quoted-string special in realm/nonce. c06.refuse: SASL1|SASL2 x 4 SCRAM hashes x history; every history deviates from or completes the honest one; distinct = (protocol, hash, history)."),
+    "assumptions": ["user names and passwords are already in SASLprep-normalised form", "no channel binding (gs2 header 'n,,')"],
+    "subs": [
+        {"name": "c06.responses", "engine": "rapid", "quick": R(6, 12000), "thorough": R(16, 600000)},
+        {"name": "c06.refuse", "engine": "rapid", "quick": R(4, 12000), "thorough": R(8, 600000)},
     ],
 }
